@@ -244,8 +244,8 @@ get_ivar = Contract(
     K + "get_ivar", PROPERTY, params={"ivar": vec_param, "s": "real", "new_ivar": vec_param},
     requires=["len(ivar) >= 0"],
     ensures={
-        "jitter-folded-into-every-weight": "all(new_ivar[i] == old(ivar)[i] / (1 + s * s * old(ivar)[i]) for i in range(len(ivar)))",
-        "input-weights-untouched": "same_array(ivar, old(ivar))",
+        "jitter-folded-into-every-weight": "all(final(new_ivar)[i] == ivar[i] / (1 + s * s * ivar[i]) for i in range(len(ivar)))",
+        "input-weights-untouched": "same_array(final(ivar), ivar)",
     })
 get_ivar.strict_defined = False
 get_ivar.out_params = ["new_ivar"]
